@@ -78,3 +78,24 @@ pub proof fn lemma_rr_invariant(c: u32, n: u32)
     ensures 1 <= rr_step(c, n).0 <= n, 1 <= rr_step(c, n).1 <= n + 1,
 {
 }
+
+// ---- LINK harnesses: the contracts ASSUMED elsewhere for the hash function proved here, proved from the real one -----------------
+// Harness = the stub's signature, its `ensures` copied VERBATIM, body = ONE call of the real extracted function (emitted here as
+// `calculate_32_checked`): Verus proves "real contract ==> assumed contract" on every run. Mirror any edit of a stub here.
+
+// copied from vx/prelude/topic_send.rs, stub `hash::calculate_32` (used by units partitioning and topic_limit; hash32 / xxh32: same file)
+// label: C17.link.topic_send.calculate_32
+pub fn link_topic_send_calculate_32(data: &[u8]) -> (r: u32)
+    ensures r == hash32(data@),
+{
+    calculate_32_checked(data)
+}
+
+// copied from units/consumer_offsets/prelude.rs, stub `hash::calculate_32` (there `hash32` is an UNINTERPRETED function of the bytes —
+// "the id of a named consumer is a function of its name"; here it is the defined xxh32(0, ·), an instance of it)
+// label: C17.link.consumer_offsets.calculate_32
+pub fn link_consumer_offsets_calculate_32(data: &[u8]) -> (r: u32)
+    ensures r == hash32(data@),
+{
+    calculate_32_checked(data)
+}
